@@ -365,6 +365,13 @@ func (w *World) send(st Step) bool {
 		method += "." + st.Action
 	}
 	f := map[string]any{"id": id, "method": method}
+	// a request object may carry members the protocol does not define (JSON-RPC clients, tracing): they change nothing
+	switch id % 3 {
+	case 1:
+		f["jsonrpc"] = "2.0"
+	case 2:
+		f["trace"] = map[string]any{"span": []any{1, "x"}}
+	}
 	count := 1
 	if st.Count != nil {
 		count = *st.Count
